@@ -223,4 +223,38 @@ theorem clipRect2_spec (x y x2 y2 cx cy cx2 cy2 : Int) :
 example : clipRect 0 0 10 10 5 5 10 10 = (5, 5, 5, 5, true) := by decide
 example : clipRect2 0 0 3 3 5 5 20 20 = (5, 5, 6, 6, true) := by decide
 
+/-! ## `sraRgnPopRect` -/
+
+/-- `sraRgnPopRect(rgn, &rect, flags)` returns 0 exactly on the empty region (and leaves it alone);
+otherwise it removes and returns the FIRST rectangle of the iteration in the directions selected by
+`flags` (bit 1: right-to-left, bit 0: bottom-to-top): the rectangle is non-empty and part of the
+region, the remaining region is well-formed, iterates as the rest of the sequence, and denotes the
+old pixel set minus the rectangle. -/
+theorem popRect_none_iff (r : Region) (hwf : r.WF) (flags : Nat) :
+    (r.popRect flags).2 = none ↔ r = [] := by
+  have hs := popRect_spec r hwf flags
+  constructor
+  · intro hn
+    cases hl : r.rects (flags &&& 2 == 2) (flags &&& 1 == 1) with
+    | nil => rw [hl] at hs; exact hs.1
+    | cons rc rs => rw [hl] at hs; rw [hs.1] at hn; cases hn
+  · rintro rfl
+    have : Region.rects [] (flags &&& 2 == 2) (flags &&& 1 == 1) = [] := by
+      cases (flags &&& 1 == 1) <;> rfl
+    rw [this] at hs
+    rw [hs.2]
+
+theorem popRect_some (r : Region) (hwf : r.WF) (flags : Nat) (r' : Region) (rc : Rect)
+    (h : r.popRect flags = (r', some rc)) :
+    r'.WF ∧
+    (r.rects (flags &&& 2 == 2) (flags &&& 1 == 1)).head? = some rc ∧
+    r'.rects (flags &&& 2 == 2) (flags &&& 1 == 1)
+      = (r.rects (flags &&& 2 == 2) (flags &&& 1 == 1)).tail ∧
+    (rc.x1 < rc.x2 ∧ rc.y1 < rc.y2) ∧
+    (∀ x y, rc.den x y → r.den x y) ∧
+    (∀ x y, r'.den x y ↔ (r.den x y ∧ ¬ rc.den x y)) := popRect_den r hwf flags r' rc h
+
+example : (Region.popRect [⟨0, 2, [⟨0, 3, ()⟩, ⟨4, 5, ()⟩]⟩, ⟨2, 4, [⟨1, 2, ()⟩]⟩] 2).2
+    = some ⟨4, 0, 5, 2⟩ := by decide
+
 end VncModel.Props.C11
